@@ -12,7 +12,11 @@
        perf       perf.enabled
        parallel   perf.enabled /\ perf.parallel.enabled            (nested under the master switch)
        graph      graph.enabled
-       quality    perf.enabled /\ t2.quality.enabled                (validator: "quality fusion will not execute")
+       quality    t2.quality.enabled      (docs/m7/overview.md: "Enable with t2.quality.enabled=true"; the perf master switch
+                                           and perf.metrics.report_memory gate the layer's METRICS AND TRACES only - the "triple
+                                           gate".  The validator's warning "perf.enabled=false; quality fusion will not execute"
+                                           says otherwise and the code follows the overview: the two documents disagree, so the
+                                           model takes the reading under which the code is right - DESIGN 9.3)
        hybrid     t2.hybrid.enabled
        reflection t3.allow_reflection        (subtree: t3.reflection.*, scheduler.budgets.{time_ms,ops}_reflection)
        scheduler  scheduler.enabled
@@ -30,7 +34,6 @@ VARIABLES sw,    \* the enable switch the user set per feature (TRUE = switched 
 vars == <<sw, sub>>
 
 Open(s, f) == CASE f = "parallel" -> s["perf"] /\ s["parallel"]
-                [] f = "quality"  -> s["perf"] /\ s["quality"]
                 [] OTHER          -> s[f]
 Closed(s) == {f \in Features : ~Open(s, f)}
 
